@@ -119,7 +119,7 @@ class RoundTrip(Facet):
     def strategy(self, tier):
         return st.fixed_dictionaries(
             {
-                "cfg": sg.stock_configs(classes=("idsm",), max_n=8 if tier == "quick" else 12, well_conditioned=True, signed=True),
+                "cfg": sg.stock_configs(classes=("idsm",), max_n=8 if tier == "quick" else 12, well_conditioned=True, signed=True, long_grid=12),
                 "direction": st.sampled_from(["forward", "backward"]),
                 "shared_model": st.booleans(),
             }
